@@ -139,6 +139,18 @@ pub fn oracle_with(case: &ProgCase, index: u64, ctx: &mut Ctx, gap_bound: usize)
         Some(b) => b,
         None => {
             ctx.count("skipped_not_analysed", 1);
+            // not analysed with one blank in every gap: then neither with nothing in the gaps
+            // (the two texts differ in white space between tokens only)
+            let tight = layout_uniform(&toks, "");
+            if observe(&tight).is_some() {
+                ctx.fail(Failure {
+                    rule: "layout".into(),
+                    witness: base_text.clone(),
+                    locus: format!("blank in every gap vs. no gap | {}", case.tag),
+                    detail: format!("the program is rejected or not analysed with one blank between all tokens, and analysed when written tightly -- variant: `{}`", show(&tight)),
+                    case: json!({"index": index, "text": base_text}),
+                });
+            }
             return;
         }
     };
